@@ -371,17 +371,20 @@ func (c *specCl) route(rq Req) Expect {
 	host = asciiLower(host)
 	var own, wild, def []sdecl
 	for _, d := range c.effective {
+		if !d.Default && isWild(d.Host) {
+			// documented: "Wildcard hostnames ... match incoming requests using the regex path type,
+			// even if the path itself has a distinct one" - case sensitive, implicit ^, no ending $
+			if wildMatches(d.Host, host) && (!rq.HTTPS || c.tls[d.Host]) && codeMatches(d, rq.Path) {
+				wild = append(wild, d)
+			}
+			continue
+		}
 		if !pathMatches(d.Type, d.Path, rq.Path) {
 			continue
 		}
-		switch {
-		case d.Default:
+		if d.Default {
 			def = append(def, d)
-		case isWild(d.Host):
-			if wildMatches(d.Host, host) && (!rq.HTTPS || c.tls[d.Host]) {
-				wild = append(wild, d)
-			}
-		case asciiLower(d.Host) == host && (!rq.HTTPS || c.tls[d.Host]):
+		} else if asciiLower(d.Host) == host && (!rq.HTTPS || c.tls[d.Host]) {
 			own = append(own, d)
 		}
 	}
@@ -389,16 +392,30 @@ func (c *specCl) route(rq Req) Expect {
 		ds  []sdecl
 		via string
 	}{{own, "host"}, {wild, "wildcard host"}, {def, "default host"}} {
-		d := best(tier.ds)
-		if d == nil {
+		if len(tier.ds) == 0 {
 			continue
+		}
+		var d *sdecl
+		ambiguous := false
+		if tier.via == "wildcard host" {
+			// no precedence between overlapping regex paths is documented: judged only when every
+			// matching rule of the wildcard host leads to the same backend
+			d = &tier.ds[0]
+			for i := range tier.ds {
+				if c.backendOf(tier.ds[i]) != c.backendOf(*d) {
+					ambiguous = true
+				}
+			}
+		} else {
+			d = best(tier.ds)
+			ambiguous = tie(tier.ds, d)
 		}
 		if c.sslRedir && !rq.HTTPS && tier.via != "default host" && c.tls[d.Host] && !d.Strict {
 			// ssl-redirect (default true): plain http of a rule whose host has TLS goes to https
-			return Expect{Kind: "redirect", Servers: []string{}, Via: tier.via, Decl: d, Ambiguous: tie(tier.ds, d)}
+			return Expect{Kind: "redirect", Servers: []string{}, Via: tier.via, Decl: d, Ambiguous: ambiguous}
 		}
 		e := c.serve(d, tier.via)
-		e.Ambiguous = tie(tier.ds, d)
+		e.Ambiguous = ambiguous
 		return e
 	}
 	if c.def != "" {
@@ -407,6 +424,21 @@ func (c *specCl) route(rq Req) Expect {
 		}
 	}
 	return Expect{Kind: "404", Servers: []string{}, Via: "404"}
+}
+
+// backendOf names the backend section a declaration leads to.
+func (c *specCl) backendOf(d sdecl) string {
+	if d.Strict {
+		if d.Root != nil {
+			return c.backendOf(*d.Root)
+		}
+		return "<strict-host default>"
+	}
+	svc, sp := c.namedPort(d)
+	if sp == nil {
+		return "<none>"
+	}
+	return svc.Namespace + "/" + svc.Name + ":" + sp.TargetPort.String()
 }
 
 // serve: the servers a selected declaration designates (a strict-host path leads to the default
@@ -538,7 +570,10 @@ func codeMatches(d sdecl, path string) bool {
 	return strings.HasPrefix(path, d.Path)
 }
 
-func (c *specCl) wildCause(rq Req) string {
+// wildSituation: for a request decided on a wildcard host, in which documented way the regex
+// reading differs from what the declared path types would mean on a plain host ("" = it does not).
+// Only counted in the evidence (documented-wildcard-regex:<which>), never a failure.
+func (c *specCl) wildSituation(rq Req) string {
 	host := rq.Host
 	if i := strings.Index(host, ":"); i >= 0 {
 		host = host[:i]
@@ -546,7 +581,16 @@ func (c *specCl) wildCause(rq Req) string {
 	host = asciiLower(host)
 	var code, spec []sdecl
 	for _, d := range c.effective {
-		if d.Default || !isWild(d.Host) || !wildMatches(d.Host, host) || (rq.HTTPS && !c.tls[d.Host]) {
+		if d.Default {
+			continue
+		}
+		if !isWild(d.Host) {
+			if asciiLower(d.Host) == host && (!rq.HTTPS || c.tls[d.Host]) && pathMatches(d.Type, d.Path, rq.Path) {
+				return "" // decided by the exact host
+			}
+			continue
+		}
+		if !wildMatches(d.Host, host) || (rq.HTTPS && !c.tls[d.Host]) {
 			continue
 		}
 		if codeMatches(d, rq.Path) {
@@ -569,32 +613,38 @@ func (c *specCl) wildCause(rq Req) string {
 	}
 	for _, d := range code {
 		if !in(spec, d) && d.Type == ptPrefix {
-			return "wildcard-prefix-not-on-element-boundary"
+			return "prefix-not-on-element-boundary"
 		}
 	}
 	for _, d := range spec {
 		if !in(code, d) && d.Type == ptBegin {
-			return "wildcard-begin-case-sensitive"
+			return "begin-case-sensitive"
 		}
 	}
 	for _, d := range spec {
 		if !in(code, d) && d.Type == ptPrefix {
-			return "wildcard-prefix-trailing-slash"
+			return "prefix-trailing-slash"
 		}
 	}
-	for _, d := range spec {
-		if !in(code, d) {
-			return "wildcard-path-match-differs"
+	// same rules match: does the longest regex belong to the rule exact / longest would pick?
+	if len(code) > 1 {
+		first := code[0]
+		for _, d := range code[1:] {
+			a, b := pathRegex(d), pathRegex(first)
+			if len(a) > len(b) || (len(a) == len(b) && a < b) {
+				first = d
+			}
+		}
+		if b := best(spec); b != nil && c.backendOf(*b) != c.backendOf(first) {
+			return "regex-length-precedence"
 		}
 	}
-	return "wildcard-regex-length-precedence"
+	return ""
 }
 
 func (c *specCl) classify(rq Req, exp Expect, ob Observed) string {
-	if !strings.HasPrefix(exp.Via, "host") {
-		if cause := c.wildCause(rq); cause != "" {
-			return cause
-		}
+	if strings.HasPrefix(exp.Via, "wildcard host") {
+		return "wildcard-host-mismatch"
 	}
 	if exp.Kind == "servers" && ob.Verdict == "backend" {
 		want := map[string]bool{}
